@@ -168,9 +168,29 @@ def _leaf_converter(transformer, data, t):
 
 
 def register_leaves():
-    """(Re)register the leaf converter in the (freshly restored) global registry."""
+    """(Re)register the leaf converter in the (freshly restored) global registry. Priority -1: a constrained type
+    built on a leaf (rule_leaves) is also a subclass of the leaf and must keep resolving to utype's own Rule converter."""
     import utype
-    utype.register_transformer(Leaf, Leaf2, KeyLeaf)(_leaf_converter)
+    utype.register_transformer(Leaf, Leaf2, KeyLeaf, priority=-1)(_leaf_converter)
+
+
+_RULE_LEAVES = {}
+
+
+def rule_leaves():
+    """Constrained (Rule) types whose origin is a harness leaf: their conversion goes through Rule.parse (error lists,
+    raise_error) and still fails exactly when the injected fault set says so. Same fault ids as their origin."""
+    if not _RULE_LEAVES:
+        from utype import Rule
+
+        class RLeaf(Leaf, Rule):
+            pass
+
+        class RKey(KeyLeaf, Rule):
+            pass
+        _RULE_LEAVES["rleaf"] = RLeaf
+        _RULE_LEAVES["rkey"] = RKey
+    return _RULE_LEAVES
 
 
 def leaf_fails(t, pid):
